@@ -6,7 +6,7 @@ TB = 'Lean 4.33 kernel; axioms propext, Classical.choice, Quot.sound only (audit
 CHECKS = {
  'C08': dict(
    text='Theorems (Props/C08.lean): the model of calculate_viability_and_necessity computes the greatest fixed point of the property\'s equation system for every graph with converse child/parent lists, every visiting order and every order of the child/parent lists (no size bound, cycles and self-loops included). The model is tied to apriori.py by running both on exhaustive small graphs and random graphs under storage permutations.',
-   note='assumes graphs handed to the analysis are structurally consistent (C09) with fresh labels; CPython recursion limit not modelled; float comparisons on defense_status computed by the harness',
+   note='assumes graphs handed to the analysis are structurally consistent (C09); labels before the analysis are arbitrary (re-runs, loaded graphs); the recursion depth of the real propagation is the recorded finding KF-C08-1 (the Lean side idealises it with fuel |nodes|+1, proved sufficient); float comparisons on defense_status computed by the harness',
    technique='Lean 4 proof (induction on fuel and child list, Knaster-Tarski uniqueness) + differential correspondence',
    design='C08'),
 }
@@ -105,24 +105,31 @@ PENDING = set()   # harness exists, theorems in progress: not claimed until they
 
 # properties whose theorems are also stated and proved for Lean definitions regenerated from the Python source
 TRANSLATED = {
- 'C01': 'the step-expression evaluator _process_step_expression (attackgraph.py)',
- 'C08': 'analyzers/apriori.py (propagation, evaluation, outer loop)',
- 'C09': 'attackgraph.py (lookups, add_node, remove_node, add_attacker, remove_attacker), attacker.py',
- 'C11': 'attacker.py and node.py (compromise, undo_compromise, is_compromised_by)',
- 'C12': 'query.py (all functions) and the defense predicates of node.py',
- 'C13': 'prune_unviable_and_unnecessary_nodes (apriori.py) with remove_node (attackgraph.py)',
+ 'C01': ('the step-expression evaluator _process_step_expression and the whole of AttackGraph._generate_graph (node creation loop + linking loop; attackgraph.py)', 'py2lean.py', 'Py/Gen', 'PropsGen/C01.lean, PropsGen/C01_Gen.lean'),
+ 'C02': ('the node-creation loop of AttackGraph._generate_graph with add_node and the lookups (attackgraph.py)', 'py2lean.py', 'Py/Gen', 'PropsGen/C02.lean'),
+ 'C03': ('LanguageGraph._get_attacks_for_asset_type and _get_variable_for_asset_type_by_name (languagegraph.py), with the specification objects as references into stores so that aliasing and purity are theorems about the translated code', 'py2lean_lang.py', 'Py/GenLang', 'PropsGen/C03.lean'),
+ 'C04': ('all 33 methods of malVisitor (mal_visitor.py), run on parse trees of a hand-written tree builder whose trees are compared with ANTLR\'s on every run', 'py2lean_visitor.py', 'Py/GenVisitor', 'PropsGen/C04.lean'),
+ 'C05': ('the mutators and lookups of Model and AttackerAttachment (model.py: add_asset, remove_asset, remove_asset_from_association, _validate_association, add_association, remove_association, add/remove_attacker, entry points, get_*, association_exists_between_assets, get_associated_assets_by_field_name)', 'py2lean_model.py', 'Py/GenModel', 'PropsGen/C05.lean'),
+ 'C08': ('analyzers/apriori.py (propagation, evaluation, outer loop incl. the reset)', 'py2lean.py', 'Py/Gen', 'PropsGen/C08.lean'),
+ 'C09': ('attackgraph.py (lookups, add_node, remove_node, add_attacker, remove_attacker, regenerate_graph, __init__), attacker.py', 'py2lean.py', 'Py/Gen', 'PropsGen/C09.lean, PropsGen/C09_Regen.lean'),
+ 'C10': ('AttackGraphNode.to_dict, Attacker.to_dict, AttackGraph._to_dict and AttackGraph._from_dict (the json / yaml file layer stays a modelled function)', 'py2lean_agserial.py', 'Py/GenAgSerial', 'PropsGen/C10.lean'),
+ 'C11': ('attacker.py and node.py (compromise, undo_compromise, is_compromised_by) and AttackGraph.attach_attackers', 'py2lean.py', 'Py/Gen', 'PropsGen/C11.lean, PropsGen/C11_Attach.lean'),
+ 'C12': ('query.py (all functions) and the defense predicates of node.py', 'py2lean.py', 'Py/Gen', 'PropsGen/C12.lean'),
+ 'C13': ('prune_unviable_and_unnecessary_nodes (apriori.py) with remove_node (attackgraph.py)', 'py2lean.py', 'Py/Gen', 'PropsGen/C13.lean'),
+ 'C14': ('the three __deepcopy__ methods (node.py, attacker.py, attackgraph.py)', 'py2lean_agserial.py', 'Py/GenAgSerial', 'PropsGen/C14.lean'),
+ 'C15': ('LanguageGraphAsset.is_subasset_of / get_all_subassets / get_all_superassets, the LanguageGraphAssociation helpers, get_asset_by_name and get_association_by_fields_and_assets (languagegraph.py)', 'py2lean_lang.py', 'Py/GenLang', 'PropsGen/C15.lean'),
 }
 
 def main():
     for k in PENDING: CHECKS.pop(k, None)
-    for k, what in TRANSLATED.items():
+    for k, (what, tr, gen, pg) in TRANSLATED.items():
         if k in CHECKS:
             c = CHECKS[k]
-            c['text'] += (f' SECOND TIE: translators/py2lean.py regenerates Lean definitions from the current source of {what} on every run '
-                          f'(lean/MalVerif/Py/Gen); Py/Tie*.lean prove them equal to the hand-written model under the abstraction Py/Abs.lean and '
-                          f'PropsGen/{k}.lean restates the property theorems for the translated code; harness/tie.py compares the regenerated text with '
+            c['text'] += (f' SECOND TIE: translators/{tr} regenerates Lean definitions from the current source of {what} on every run '
+                          f'(lean/MalVerif/{gen}); Py/Tie*.lean prove them equal to the hand-written model under the abstractions Py/Abs*.lean and '
+                          f'{pg} restate the property theorems for the translated code; harness/tie.py compares the regenerated text with '
                           f'the files lake checked and, if it differs, re-checks all dependent proofs in a scratch overlay (status in the evidence file).')
-            c['note'] += ('; translated code: trusted translator + Py/Prelude.lean conventions (DESIGN.md I.9); a broken or untranslatable second tie '
+            c['note'] += ('; translated code: trusted translator + Py/Prelude*.lean conventions (DESIGN.md I.9, I.10); a broken or untranslatable second tie '
                           'escalates the failing-input search and is reported as NOTE, the verdict then rests on the correspondence')
             c['technique'] += ' + Python-to-Lean translation of the relevant functions, regenerated and re-checked on every run'
     props = [json.loads(l) for l in open(os.path.join(HERE, 'properties.jsonl'))]
